@@ -217,6 +217,8 @@ class OpsMixin(object):
                 return Const("\n")
             return ExtV(base.name + "." + attr)
         if isinstance(base, ExtV):
+            if base.name == "os" and attr == "linesep":
+                return Const("\n")
             return ExtV(base.name + "." + attr)
         if isinstance(base, InstV):
             if attr in base.attrs:
